@@ -80,8 +80,9 @@ class ExperimentEvaluator:
                 self, "run_experiment", code_holder[fn_name]
             )  # initialize the function
 
-    def run_experiment(self, **kwargs):
+    def run_experiment(self, /, **kwargs):
         raise RuntimeError("Code was not loaded")
 
-    def __call__(self, **kwargs):
+    def __call__(self, /, **kwargs):
+        # `self` is positional-only so that a field may itself be called "self"
         return self.run_experiment(**kwargs)
